@@ -3,6 +3,7 @@ package props
 
 import (
 	_ "verif/internal/props/c01"
+	_ "verif/internal/props/c02"
 	_ "verif/internal/props/c03"
 	_ "verif/internal/props/c04"
 	_ "verif/internal/props/c05"
@@ -18,6 +19,7 @@ import (
 	_ "verif/internal/props/c15"
 	_ "verif/internal/props/c16"
 	_ "verif/internal/props/c17"
+	_ "verif/internal/props/c18"
 	_ "verif/internal/props/c19"
 	_ "verif/internal/props/c20"
 )
